@@ -143,12 +143,20 @@ func Explore(sc *Scenario, opt Options) *Stats {
 			}
 			if sc.Check != nil {
 				if msg := sc.Check(r); msg != "" {
-					st.ViolationCount++
-					sig := firstLine(msg)
-					if !seenSig[sig] {
-						seenSig[sig] = true
-						st.Violations = append(st.Violations, Violation{Scenario: sc.Name, Msg: msg, Choices: r.Choices(),
-							Obs: r.Obs, Status: r.Status.String(), PanicMsg: r.PanicMsg, PanicStk: r.PanicStk})
+					// a check may report several independent violations of one
+					// execution: "MULTI\n" + violations joined by "\n@@\n"
+					parts := []string{msg}
+					if strings.HasPrefix(msg, "MULTI\n") {
+						parts = strings.Split(msg[len("MULTI\n"):], "\n@@\n")
+					}
+					for _, m := range parts {
+						st.ViolationCount++
+						sig := firstLine(m)
+						if !seenSig[sig] {
+							seenSig[sig] = true
+							st.Violations = append(st.Violations, Violation{Scenario: sc.Name, Msg: m, Choices: r.Choices(),
+								Obs: r.Obs, Status: r.Status.String(), PanicMsg: r.PanicMsg, PanicStk: r.PanicStk})
+						}
 					}
 					if opt.StopAtFirst {
 						st.Complete = false
